@@ -17,12 +17,16 @@ from .values import DObj, OpaqueStr
 
 
 class ConcDict(C.T):
-    def __init__(self, key_t, val_t, n):
+    """key_t: a type for n symbolic keys, or a list of concrete keys (then n is ignored)"""
+
+    def __init__(self, key_t, val_t, n=0):
         self.key_t, self.val_t, self.n = key_t, val_t, n
 
     def fresh(self, cfg, path, hint):
         from .models import wrap_key
 
+        if isinstance(self.key_t, (list, tuple)):
+            return path.alloc(DObj({k: cfg.fresh(path, self.val_t, f'{hint}.v{i}') for i, k in enumerate(self.key_t)}))
         keys = [cfg.fresh(path, self.key_t, f'{hint}.k{i}') for i in range(self.n)]
         for i in range(self.n):
             for j in range(i):
@@ -303,3 +307,21 @@ def m_signature(ex, f, **kw):
 
 
 _MC.NATIVE_MODELS[_inspect.signature] = m_signature
+
+
+# an `if` whose branches only log (logger.* calls are dropped, see A5) does not split the path: the test is still evaluated
+_orig_if = E.Path.st_If
+
+
+def _only_logs(stmts):
+    return all(isinstance(x, ast.Pass) or (isinstance(x, ast.Expr) and (E.is_logger_call(x.value) or isinstance(x.value, ast.Constant))) for x in stmts)
+
+
+def st_If(self, s):
+    if _only_logs(s.body) and _only_logs(s.orelse):
+        self.eval(s.test)
+        return
+    return _orig_if(self, s)
+
+
+E.Path.st_If = st_If
